@@ -245,8 +245,11 @@ def alias_rewrite(t):
 
 # ---- the rewrites of one base model ----------------------------------------------------------------------------
 LAYOUT_INSERTS = [("blank", " "), ("tab", "\t"), ("newline", "\n"), ("crlf", "\r\n"), ("block-comment", "/* c */"),
-                  ("line-comment", "// c\n"), ("expect-comment", "/* EXPECT:T */"), ("continuation", " \\\n")]
-QUERY_INSERTS = [("blank", " "), ("tab", "\t"), ("block-comment", "/* c */")]
+                  ("line-comment", "// c\n"), ("expect-comment", "/* EXPECT:T */"), ("continuation", " \\\n"),
+                  ("empty-comment", "/**/"), ("star-comment", "/***/"), ("doc-comment", "/** d **/"), ("banner-comment", "/***** b *****/"),
+                  ("comment-with-stars-and-slashes", "/* a * b / c // d */"), ("comment-with-opener", "/* /* x */"),
+                  ("multi-line-comment", "/* a\n * b\n */"), ("line-comment-with-closer", "// */ /* c\n"), ("blank-lines", "\n \t\n\n")]
+QUERY_INSERTS = [("blank", " "), ("tab", "\t"), ("block-comment", "/* c */"), ("star-comment", "/***/"), ("doc-comment", "/** d **/")]
 
 
 def rewrites(slots, raw, tier):
